@@ -180,6 +180,26 @@ Proof.
   cbn [cols_ob]. cbn [r_obys the_rens]. change (OCons (colref n r) o (cols_ob l)) with (cols_ob ((n, r, o) :: l)).
   rewrite render_obys_cols. destruct (cc_flags1 q c0 true) as [-> ->]. reflexivity.
 Qed.
+(* JOIN .. ON of EVERY statement: the condition's column references follow the same rule (the joined item is rendered in the FROM-list context) *)
+Lemma render_cmp_cols : forall (q : query) (c0 : ctx) (p : pz) e n1 r1 n2 r2,
+  render (set_subquery true (cc q c0)) p (TBasic (CEq e) (colref n1 r1) (colref n2 r2) None) =
+  Ok (ref (quote_char c0) (ns q) r1 n1 ++ equality_sql e ++ ref (quote_char c0) (ns q) r2 n2, p).
+Proof.
+  intros. pose proof (C11_filter_clause_columns q c0 p e n1 r1 n2 r2) as H. cbn [r_o the_rens render_o] in H.
+  destruct (render (set_subquery true (cc q c0)) p (TBasic (CEq e) (colref n1 r1) (colref n2 r2) None)) as [[s p']|x]; [|discriminate H].
+  inversion H; subst. reflexivity.
+Qed.
+
+Theorem C11_join_on_columns : forall (q : query) (c0 : ctx) (p : pz) item how e n1 r1 n2 r2 s p1,
+  render (set_with_alias true (set_subquery true (cc q c0))) p item = Ok (s, p1) ->
+  exists head, render_join (cc q c0) p (JOn item how (TBasic (CEq e) (colref n1 r1) (colref n2 r2) None) None) =
+    Ok (head ++ L " ON " ++ ref (quote_char c0) (ns q) r1 n1 ++ equality_sql e ++ ref (quote_char c0) (ns q) r2 n2, p1).
+Proof.
+  intros q c0 p item how e n1 r1 n2 r2 s p1 H. cbn [render_join]. rewrite H. rewrite render_cmp_cols.
+  exists (match jointype_sql how with [] => L "JOIN " ++ s | c1 :: l => (c1 :: l) ++ [32] ++ L "JOIN " ++ s end).
+  cbv beta iota. rewrite app_nil_r. reflexivity.
+Qed.
+Print Assumptions C11_join_on_columns.
 Print Assumptions C11_statement_namespace.
 Print Assumptions C11_select_list_columns.
 Print Assumptions C11_filter_clause_columns.
